@@ -390,7 +390,7 @@ func sweepC11(tier string, emit func(*CaseC11)) {
 		if (tier == "quick" && i%3 != 1) || n > 2048 {
 			continue
 		}
-		emit(&CaseC11{Boxes: rowBoxes(n, 8, 6), OutH: 8, OutV: 6, BackH: 8, BackV: 6, KeyZoom: 8, E: 25})
+		emit(allProcs(&CaseC11{Boxes: rowBoxes(n, 8, 6), OutH: 8, OutV: 6, BackH: 8, BackV: 6, KeyZoom: 8, E: 25}))
 	}
 	// every output zoom pair (1..31 x 0..35): four IDs of that zoom that differ only in the top bit of x and / or y
 	// (packed keys that drop a high bit), same vertical index; round trip at the same zooms
